@@ -583,7 +583,7 @@ func toolsCase(ctx context.Context, rep *mon.Reporter, rng *mon.Rand) {
 }
 
 func toolsRun(ctx context.Context, rep *mon.Reporter, rng *mon.Rand, sp *toolsSpec, r compose.Runnable[[]*schema.Message, map[string]any], us []tunit, callOpts map[int][]compose.Option, hs []hspec, para string, failing bool) {
-	rec := &recorder{}
+	rec := &recorder{content: true}
 	byOpt := map[int][]callbacks.Handler{}
 	optPaths := map[int][][]string{}
 	var optIdx []int
@@ -620,6 +620,25 @@ func toolsRun(ctx context.Context, rep *mon.Reporter, rng *mon.Rand, sp *toolsSp
 	in := []*schema.Message{schema.UserMessage("go")}
 	var outErr error
 	var p *mon.Panic
+	// what the run delivered: lane key -> slot -> "<tool call id>|<content>", chunks joined by the harness
+	result := map[string][]string{}
+	takeChunk := func(c map[string]any) {
+		for k, v := range c {
+			ms, _ := v.([]*schema.Message)
+			for len(result[k]) < len(ms) {
+				result[k] = append(result[k], "")
+			}
+			for i, m := range ms {
+				if m == nil {
+					continue
+				}
+				if result[k][i] == "" {
+					result[k][i] = m.ToolCallID + "|"
+				}
+				result[k][i] += m.Content
+			}
+		}
+	}
 	done := make(chan struct{})
 	go func() {
 		defer close(done)
@@ -631,12 +650,19 @@ func toolsRun(ctx context.Context, rep *mon.Reporter, rng *mon.Rand, sp *toolsSp
 				}
 				defer sr.Close()
 				for {
-					if _, err := sr.Recv(); err == io.EOF {
+					c, err := sr.Recv()
+					if err == io.EOF {
 						return
 					} else if err != nil {
 						outErr = err
 						return
 					}
+					takeChunk(c)
+				}
+			}
+			value := func(v map[string]any, err error) {
+				if outErr = err; err == nil {
+					takeChunk(v)
 				}
 			}
 			one := func() *schema.StreamReader[[]*schema.Message] {
@@ -644,11 +670,11 @@ func toolsRun(ctx context.Context, rep *mon.Reporter, rng *mon.Rand, sp *toolsSp
 			}
 			switch para {
 			case "I":
-				_, outErr = r.Invoke(cctx, in, opts...)
+				value(r.Invoke(cctx, in, opts...))
 			case "S":
 				drain(r.Stream(cctx, in, opts...))
 			case "C":
-				_, outErr = r.Collect(cctx, one(), opts...)
+				value(r.Collect(cctx, one(), opts...))
 			default:
 				drain(r.Transform(cctx, one(), opts...))
 			}
@@ -673,7 +699,16 @@ func toolsRun(ctx context.Context, rep *mon.Reporter, rng *mon.Rand, sp *toolsSp
 			return
 		}
 	}
-	rec.wg.Wait()
+	// handlers that read their stream copies to the end finish once the streams end
+	doneReaders := make(chan struct{})
+	go func() { rec.wg.Wait(); close(doneReaders) }()
+	if w, d := mon.WaitDone(doneReaders, 120*time.Second); w == mon.Stuck {
+		rep.Violation(ID+"/tools/handler-stream-copy-never-ends", fmt.Sprintf("a handler that reads its stream copy to the end never sees EOF; %d goroutines parked", len(d)), wit)
+		return
+	} else if w != mon.Finished {
+		rep.Inconclusive("watchdog")
+		return
+	}
 	if p != nil {
 		rep.Violation(ID+"/tools/panic-reaches-caller", p.Value+"\n"+p.Stack, wit)
 		return
@@ -681,6 +716,24 @@ func toolsRun(ctx context.Context, rep *mon.Reporter, rng *mon.Rand, sp *toolsSp
 	if !failing && outErr != nil {
 		rep.Violation(ID+"/tools/run-failed", fmt.Sprintf("every model, tool and handler of this case succeeds, the run failed: %v", outErr), wit)
 		return
+	}
+	if !failing {
+		// whatever the handlers do with their stream copies, the run delivers every call's answer
+		for _, l := range sp.Lanes {
+			var want []string
+			for i, c := range l.Calls {
+				a := c.Name + "=>" + c.Args
+				if !c.Known {
+					a = "unknown:" + a
+				}
+				want = append(want, fmt.Sprintf("%s-call-%d|%s", l.Key, i, a))
+			}
+			if fmt.Sprint(result[l.Key]) != fmt.Sprint(want) {
+				rep.Violation(ID+"/tools/result-disturbed-by-handlers", fmt.Sprintf("lane %s, paradigm %s: the run delivered the tool messages %q, expected %q\nhandlers: %+v", l.Key, para, result[l.Key], want, hs), wit)
+				return
+			}
+			rep.Count("tools_results_checked", 1)
+		}
 	}
 	if failing && outErr == nil {
 		rep.Count("tools_failing_runs_that_succeeded_not_judged", 1) // C13's business
@@ -742,6 +795,20 @@ func toolsRun(ctx context.Context, rep *mon.Reporter, rng *mon.Rand, sp *toolsSp
 				report(ID+"/tools/unknown-unit", fmt.Sprintf("handler %s: a callback with run info name %q (component %s), which names no unit of this run", h.ID, e.name, e.comp))
 				continue
 			}
+			if e.timing == "content" {
+				// what this handler's copy of the unit's output stream carried
+				if u.comp == "Tool" {
+					k := e.name + "|content|" + e.payload
+					pay[k]++
+					if !u.outs[e.payload] {
+						report(ID+"/tools/wrong-payload/stream-end/"+u.kind, fmt.Sprintf("handler %s read %q from its copy of the output stream of tool call unit %s; the answers of that tool's calls: %v", h.ID, e.payload, e.name, mon.SortedKeys(u.outs)))
+					} else if pay[k] > 1 {
+						report(ID+"/tools/payload-of-another-call/stream-end/"+u.kind, fmt.Sprintf("handler %s read the answer %q of tool %s from two stream copies: every call has its own answer", h.ID, e.payload, e.name))
+					}
+					rep.Count("tool_stream_payloads_checked", 1)
+				}
+				continue
+			}
 			if e.comp != u.comp {
 				report(ID+"/tools/wrong-run-info/"+u.kind, fmt.Sprintf("handler %s: unit %s reported with component %q, expected %q", h.ID, e.name, e.comp, u.comp))
 			}
@@ -785,9 +852,9 @@ func toolsRun(ctx context.Context, rep *mon.Reporter, rng *mon.Rand, sp *toolsSp
 			case e < s:
 				report(ID+"/tools/start-without-end/"+u.kind+fate, fmt.Sprintf("%s handler %s, unit %s: %d start but %d end-or-error callbacks: the unit started and never ended for this handler", hclass, h.ID, u.name, s, e))
 			case s > u.want:
-				report(ID+"/tools/fired-too-often/"+u.kind+fate, fmt.Sprintf("%s handler %s, unit %s: %d start / %d end-or-error callbacks, expected %d of each", hclass, h.ID, u.name, s, e, u.want))
+				report(ID+"/tools/fired-too-often/"+u.kind, fmt.Sprintf("%s handler %s, unit %s: %d start / %d end-or-error callbacks, expected %d of each", hclass, h.ID, u.name, s, e, u.want))
 			case exact && s < u.want:
-				report(ID+"/tools/fired-too-rarely/"+u.kind+fate, fmt.Sprintf("%s handler %s, unit %s: %d start / %d end-or-error callbacks, expected %d of each", hclass, h.ID, u.name, s, e, u.want))
+				report(ID+"/tools/fired-too-rarely/"+u.kind, fmt.Sprintf("%s handler %s, unit %s: %d start / %d end-or-error callbacks, expected %d of each", hclass, h.ID, u.name, s, e, u.want))
 			}
 			rep.Count("handler_unit_pairs_checked", 1)
 			rep.Count("tools_pairs_"+hclass, 1)
